@@ -168,3 +168,50 @@ Definition layout_offset_us (l:layout) : Z :=
   | _ => 0
   end.
 Definition denoted_us (l:layout) (c:civil) : Z := instant_us c (layout_us l) - layout_offset_us l.
+
+(* ---- dates (DateImporter): the texts '%Y-%m-%d' reads, what they denote ---- *)
+Definition date_ok (y m d:Z) : bool :=
+  (1 <=? y) && (y <=? 9999) && (1 <=? m) && (m <=? 12) && (1 <=? d) && (d <=? days_in_month y m).
+
+(* UTC midnight of the civil date y-m-d, in microseconds since 1970-01-01T00:00:00Z *)
+Definition midnight_us (y m d:Z) : Z := instant_us (mkCivil y m d 0 0 0) 0.
+
+(* YYYY-MM-DD *)
+Definition fmt_ymd (y m d:Z) : list Z := fmt_date (mkCivil y m d 0 0 0).
+
+(* every text that denotes the date: the month and the day may drop their leading zero, the day may carry
+   a space in its place (the '%m' and '%d' directives of strptime) *)
+Definition month_texts (m:Z) : list (list Z) := d2 m :: (if m <? 10 then [[digit m]] else []).
+Definition day_texts (d:Z) : list (list Z) := d2 d :: (if d <? 10 then [[digit d]; [32; digit d]] else []).
+Definition date_texts (y m d:Z) : list (list Z) :=
+  flat_map (fun mt => map (fun dt => d4 y ++ [45] ++ mt ++ [45] ++ dt) (day_texts d)) (month_texts m).
+
+Definition ascii (l:list Z) : bool := forallb (fun b => (0 <=? b) && (b <? 128)) l.
+Definition all_ws (l:list Z) : bool := forallb is_ws l.
+
+(* what one cell of a date column must produce: (timestamp in us, 10-byte day string, set flag) or ValueError.
+   The cell's text is read after bytes.strip(). *)
+Inductive date_cell_spec (cell:list Z) : res (Z * list Z * Z) -> Prop :=
+| DC_blank : strip cell = [] -> date_cell_spec cell (Ok (0, zeros 10, 0))
+| DC_date y m d : date_ok y m d = true -> In (strip cell) (date_texts y m d) ->
+    date_cell_spec cell (Ok (midnight_us y m d, pad_to 10 (strip cell), 1))
+| DC_bad : strip cell <> [] -> (forall y m d, date_ok y m d = true -> ~ In (strip cell) (date_texts y m d)) ->
+    date_cell_spec cell (Raise E_ValueError).
+
+(* the three stored columns (timestamps, day strings flattened, set flags) of a list of row results *)
+Definition dt_cols (rs:list (Z * list Z * Z)) : list Z * list Z * list Z :=
+  (map (fun r => fst (fst r)) rs, concat (map (fun r => snd (fst r)) rs), map snd rs).
+
+(* a date column as its author meant it: blank cells and dates printed as YYYY-MM-DD, with any surrounding
+   white space *)
+Inductive dcell : Type := DBlank (w:list Z) | DDate (w1:list Z) (y m d:Z) (w2:list Z).
+Definition dcell_ok (x:dcell) : bool :=
+  match x with DBlank w => all_ws w | DDate w1 y m d w2 => all_ws w1 && date_ok y m d && all_ws w2 end.
+Definition dcell_text (x:dcell) : list Z :=
+  match x with DBlank w => w | DDate w1 y m d w2 => w1 ++ fmt_ymd y m d ++ w2 end.
+Definition dcell_store (x:dcell) : Z * list Z * Z :=
+  match x with DBlank _ => (0, zeros 10, 0) | DDate _ y m d _ => (midnight_us y m d, fmt_ymd y m d, 1) end.
+
+(* the calendar: the day after y-m-d *)
+Definition next_day (y m d:Z) : Z * Z * Z :=
+  if d <? days_in_month y m then (y, m, d + 1) else if m <? 12 then (y, m + 1, 1) else (y + 1, 1, 1).
